@@ -50,7 +50,8 @@ Proof. exact (is_ambiguous_iff s). Qed.
 Print Assumptions C20_is_ambiguous_iff.
 
 (* ForestVisitor.visit terminates on every finite forest graph - cyclic or not - for every
-   visitor class, i.e. whatever lists of nodes the visit_*_in callbacks return, in
+   visitor class, i.e. whatever the visit_*_in callbacks return - an iterable of nodes, a single node
+   (vret: RNodes / ROne, both branches of visit()) or nothing -, in
    single-visit and multi-visit mode: the model never runs out of its fuel |nodes|+1 ... *)
 Theorem C20_visit_terminates g single sel root : visit g single sel root <> OutOfFuel.
 Proof. exact (visit_terminates g single sel root). Qed.
@@ -58,7 +59,7 @@ Print Assumptions C20_visit_terminates.
 
 (* ... and returns a trace when the callbacks return nodes of the graph *)
 Theorem C20_visit_total g single sel root :
-  (forall tr n c, In c (sel tr n) -> c < List.length g) -> root < List.length g ->
+  (forall tr n c, In c (sel_kids (sel tr n)) -> c < List.length g) -> root < List.length g ->
   exists st, visit g single sel root = Ok st.
 Proof. exact (visit_total g single sel root). Qed.
 Print Assumptions C20_visit_total.
@@ -108,8 +109,8 @@ Proof. vm_compute. repeat split; reflexivity. Qed.
 
 (* the forest of  a: a | A  on "a": symbol 0 -> packed 1 -> symbol 0 (cycle), packed 2 -> token 3 *)
 Definition cyc : vgraph := [VInner; VInner; VInner; VTok 0].
-Definition cyc_kids (n : nat) : list nat :=
-  match n with 0 => [1; 2] | 1 => [0] | 2 => [3] | _ => [] end.
+Definition cyc_kids (n : nat) : vret :=
+  match n with 0 => RNodes [1; 2] | 1 => ROne 0 | 2 => RNodes [3] | _ => RNodes [] end.
 
 Example C20_example_cycle :
   visit cyc false (fun _ => cyc_kids) 0
